@@ -6,13 +6,11 @@ PROPS = {}
 NOT_APPLICABLE = {
     'C02': 'check not built yet in this round (planned, see DESIGN.md section 5)',
     'C03': 'check not built yet in this round (planned, see DESIGN.md section 5)',
-    'C04': 'check not built yet in this round (planned, see DESIGN.md section 5)',
     'C05': 'check not built yet in this round (planned, see DESIGN.md section 5)',
     'C06': 'check not built yet in this round (planned, see DESIGN.md section 5)',
     'C07': 'check not built yet in this round (planned, see DESIGN.md section 5)',
     'C10': 'check not built yet in this round (planned, see DESIGN.md section 5)',
     'C11': 'check not built yet in this round (planned, see DESIGN.md section 5)',
-    'C12': 'check not built yet in this round (planned, see DESIGN.md section 5)',
     'C14': 'check not built yet in this round (planned, see DESIGN.md section 5)',
     'C15': 'check not built yet in this round (planned, see DESIGN.md section 5)',
     'C18': 'check not built yet in this round (planned, see DESIGN.md section 5)',
@@ -138,5 +136,37 @@ PROPS['C09'] = dict(
     runs=[dict(variant='plain', harness='c01_roundtrip', prop='C09', cases=dict(quick=120000, thorough=3000000))],
     min_nontrivial=20000,
     require_counters={'config/edgebreaker': 5000, 'config/kd-tree': 500, 'frontend/Encoder': 5000, 'frontend/ExpertEncoder': 5000, 'point_count_changed_by_encoding': 500},
+    assumptions=[],
+)
+
+PROPS['C04'] = dict(
+    title='Quantization error is at most half a step',
+    technique='runtime monitoring: analytic half-step/box oracle in double precision over tagged round trips (unique uint32 tag per value identifies the original under any reordering)',
+    level='exploration',
+    level_text=('A float attribute with generated values (uniform, exact rounding ties k+1/2, constant, huge outlier, gaussian, two values; magnitudes 1e-6..1e9, offsets up to 1e7 x range) is quantized to 1..30 bits '
+                '(automatic or explicit range) and round-tripped through every method/speed/prediction scheme together with an unquantized uint32 tag attribute; each decoded component is matched to its '
+                'original through the tag and checked against |y-x| <= step/2 + A and the box, computed in double precision from the inputs only (A = 2^-21 x magnitude). NaN/Inf inputs must be refused.'),
+    level_note='Sampled. The bound is sharp (detects a lost +0.5 or truncation) when step/2 > A, i.e. up to about 19 bits for offset-free data; above that it degrades to a float-precision check, as the property states. Evidence reports the largest observed excess in units of A (calibration: < 0.5).',
+    rule=('one case = (topology or point set, value style, components 1-4, bits, auto/explicit range, option vector). Non-trivial = encoder accepted and >= 1 decoded value compared; distinct = hash of the stream.'),
+    runs=[dict(variant='plain', harness='c04_quant_bound', cases=dict(quick=60000, thorough=1500000)),
+          dict(variant='asan', harness='c04_quant_bound', tag='asan-slice', cases=dict(quick=4000, thorough=100000))],
+    min_nontrivial=10000,
+    require_counters={'config/edgebreaker': 3000, 'config/kd-tree': 1000, 'config/mesh-sequential': 1000, 'config/pc-sequential': 500, 'sharpness/sharp': 5000,
+                      'range/explicit': 3000, 'style/grid-ties': 1000, 'nan_inf_refused': 100, 'values_checked': 1000000},
+    assumptions=['float allowance A = 2^-21 * max(R, |min|, |max|) (5 rounded float32 operations)'],
+)
+
+PROPS['C12'] = dict(
+    title='Explicit quantization maps equal coordinates to equal decoded values',
+    technique='runtime monitoring: relational oracle over two independent encodes sharing coordinates + bit-exact grid membership through an independent reference dequantizer',
+    level='exploration',
+    level_text=('Two different geometries (different topology, method, speed, prediction, other attributes, front end) that share a random subset of coordinates are encoded separately with the same '
+                'explicit (origin, range, bits); decoded values are matched through uint32 tags and shared coordinates must decode to bit-identical floats; every decoded value of the first encode must '
+                'be bit-equal to fl(fl(k*fl(range/(2^b-1)))+origin_c) for an integer k, tested with an independent dequantizer.'),
+    level_note='Sampled. For >= 22 bits k = 2^b is tolerated (float32 rounding of the +0.5 at the top of the box), counted in the evidence.',
+    rule='one case = pair of (geometry, options) sharing coordinates. Non-trivial = both encodes accepted and >= 1 shared coordinate compared; distinct = hash of both streams.',
+    runs=[dict(variant='plain', harness='c04_quant_bound', prop='C12', cases=dict(quick=50000, thorough=1200000))],
+    min_nontrivial=10000,
+    require_counters={'pair/edgebreaker-vs-kd-tree': 300, 'pair/kd-tree-vs-edgebreaker': 300, 'pair/mesh-sequential-vs-edgebreaker': 200, 'shared_coordinates_compared': 100000, 'grid_values_checked': 500000},
     assumptions=[],
 )
